@@ -5,6 +5,14 @@ LEMMAS — measurement, normalisation and the norm of a register over the reals
 `WF r` is the register invariant of C14 (buffer length `max (2^n) 8`, `qMask = 2^n − 1`, padding
 cells zero); `nrm r` is what `QReg::get_absolute` returns, the sum of the squared moduli over the
 whole buffer; `Inv r` adds "the norm is 1 within the threshold of `normalize`".
+
+`measure_mask` renormalises with `QReg.rescale` (divide by the norm; a zero vector is left alone),
+not with `QReg.normalize` any more. `normalize` (reset below `1e-15`, no rescaling within `1e-9` of
+1) still exists and its lemmas are kept (section 4); section 4b is about `rescale`.
+
+A draw `d` is *possible* for the measured qubits `m'` when the collapsed vector is not zero,
+`0 < nrm (r.collapseMask d m')`. This is the `WeightedIndex` contract (only indices of positive
+weight are drawn): it follows from `bufFn r.psi d ≠ 0` (`nrm_collapse_pos_of_ne`).
 -/
 import Qvnt.Lemmas.RealInst
 import Qvnt.Lemmas.Regs14
@@ -120,6 +128,29 @@ theorem bufFn_map_scale (a : Array (Cx ℝ)) (t : ℝ) (i : Nat) :
   · simp
   · exact (cx_scale_zero t).symm
 
+theorem nrm_scale (r : QReg ℝ) (t : ℝ) :
+    nrm ({ r with psi := r.psi.map (fun v => v.scale t) } : QReg ℝ) = t ^ 2 * nrm r := by
+  rw [nrm_eq_sum, nrm_eq_sum, mul_sum]
+  simp only [Array.size_map, bufFn_map_scale, normSq_scale]
+
+/-- a positive multiple of a non-zero amplitude is non-zero -/
+theorem cx_scale_ne_zero (z : Cx ℝ) (t : ℝ) (ht : 0 < t) (hz : z ≠ 0) : z.scale t ≠ 0 := by
+  intro h
+  have h1 : (z.scale t).normSq = 0 := by rw [h, normSq_zero]
+  rw [normSq_scale] at h1
+  rcases mul_eq_zero.1 h1 with h2 | h2
+  · exact absurd h2 (ne_of_gt (by positivity))
+  · exact hz ((normSq_eq_zero_iff z).1 h2)
+
+/-- a register of squared norm zero is the zero vector -/
+theorem bufFn_of_nrm_zero (r : QReg ℝ) (h : nrm r = 0) (i : Nat) : bufFn r.psi i = 0 := by
+  by_cases hi : i < r.psi.size
+  · rw [nrm_eq_sum] at h
+    have := (sum_eq_zero_iff_of_nonneg (fun j _ => normSq_nonneg (bufFn r.psi j))).1 h i
+      (mem_range.2 hi)
+    exact (normSq_eq_zero_iff _).1 this
+  · exact bufFn_of_size_le r.psi i (Nat.le_of_not_lt hi)
+
 theorem collapse_size (r : QReg ℝ) (d m : Nat) : (r.collapseMask d m).psi.size = r.psi.size := by
   simp only [QReg.collapseMask, Array.size_ofFn]
 
@@ -234,6 +265,71 @@ theorem normalize_nondeg (r : QReg ℝ) (h : RegConsts.tiny < Real.sqrt (nrm r))
     rw [h1]
     exact bufFn_map_scale _ _ i
 
+/-! ## 4b. `rescale` -/
+
+/-- the two branches of `rescale`: a non-zero vector is divided by its norm, the zero vector is
+left alone -/
+theorem rescale_cases (r : QReg ℝ) :
+    (0 < nrm r ∧
+      r.rescale = { r with psi := r.psi.map (fun v => v.scale (1 / Real.sqrt (nrm r))) }) ∨
+    (nrm r = 0 ∧ r.rescale = r) := by
+  unfold QReg.rescale
+  by_cases h : (0 : ℝ) < HasSqrt.sqrt r.getAbsolute
+  · left
+    refine ⟨Real.sqrt_pos.1 h, ?_⟩
+    rw [if_pos h]
+    rfl
+  · right
+    refine ⟨?_, by rw [if_neg h]⟩
+    have hn : ¬ 0 < nrm r := fun hp => h (Real.sqrt_pos.2 hp)
+    exact le_antisymm (not_lt.1 hn) (nrm_nonneg r)
+
+theorem rescale_of_pos (r : QReg ℝ) (h : 0 < nrm r) :
+    r.rescale = { r with psi := r.psi.map (fun v => v.scale (1 / Real.sqrt (nrm r))) } := by
+  rcases rescale_cases r with ⟨_, h'⟩ | ⟨hz, _⟩
+  · exact h'
+  · exact absurd hz (ne_of_gt h)
+
+theorem rescale_of_zero (r : QReg ℝ) (h : nrm r = 0) : r.rescale = r := by
+  rcases rescale_cases r with ⟨hp, _⟩ | ⟨_, h'⟩
+  · exact absurd h (ne_of_gt hp)
+  · exact h'
+
+theorem rescale_qNum (r : QReg ℝ) : r.rescale.qNum = r.qNum := by
+  rcases rescale_cases r with ⟨_, h⟩ | ⟨_, h⟩ <;> rw [h]
+
+theorem rescale_qMask (r : QReg ℝ) : r.rescale.qMask = r.qMask := by
+  rcases rescale_cases r with ⟨_, h⟩ | ⟨_, h⟩ <;> rw [h]
+
+theorem rescale_size (r : QReg ℝ) : r.rescale.psi.size = r.psi.size := by
+  rcases rescale_cases r with ⟨_, h⟩ | ⟨_, h⟩ <;> rw [h]
+  simp only [Array.size_map]
+
+/-- `rescale` multiplies every amplitude by one positive number: `1/norm` for a non-zero vector
+(for the zero vector any factor will do) -/
+theorem rescale_scaled (r : QReg ℝ) :
+    ∃ lam : ℝ, 0 < lam ∧ (0 < nrm r → lam = 1 / Real.sqrt (nrm r)) ∧
+      ∀ i, bufFn r.rescale.psi i = (bufFn r.psi i).scale lam := by
+  rcases rescale_cases r with ⟨hp, h⟩ | ⟨hz, h⟩
+  · have hpos : 0 < Real.sqrt (nrm r) := Real.sqrt_pos.2 hp
+    refine ⟨1 / Real.sqrt (nrm r), by positivity, fun _ => rfl, fun i => ?_⟩
+    rw [h]
+    exact bufFn_map_scale _ _ i
+  · refine ⟨1, one_pos, fun hp => absurd hz (ne_of_gt hp), fun i => ?_⟩
+    rw [h, cx_scale_one]
+
+/-- a non-zero vector has squared norm exactly 1 after `rescale` -/
+theorem nrm_rescale (r : QReg ℝ) (h : 0 < nrm r) : nrm r.rescale = 1 := by
+  rw [rescale_of_pos r h, nrm_scale, div_pow, one_pow, Real.sq_sqrt (le_of_lt h)]
+  exact one_div_mul_cancel (ne_of_gt h)
+
+theorem rescale_wf (r : QReg ℝ) (hwf : WF r) : WF r.rescale := by
+  rcases rescale_cases r with ⟨_, h⟩ | ⟨_, h⟩ <;> rw [h]
+  · refine ⟨by simp only [Array.size_map]; exact hwf.1, hwf.2.1, fun i hi => ?_⟩
+    simp only [bufFn_map_scale]
+    rw [hwf.2.2 i hi, cx_scale_zero]
+  · exact hwf
+
 /-! ## 5. `measure_mask` -/
 
 theorem xor_and_eq_zero_iff (i d m : Nat) : (i ^^^ d) &&& m = 0 ↔ i &&& m = d &&& m := by
@@ -244,26 +340,31 @@ theorem measure_of_zero (r : QReg ℝ) (mask d : Nat) (h : mask &&& r.qMask = 0)
   simp only [QReg.measureMask, h, ↓reduceIte]
 
 theorem measure_of_ne (r : QReg ℝ) (mask d : Nat) (h : mask &&& r.qMask ≠ 0) :
-    r.measureMask mask d = ((r.collapseMask d (mask &&& r.qMask)).normalize,
+    r.measureMask mask d = ((r.collapseMask d (mask &&& r.qMask)).rescale,
       CReg.withState r.qNum (d &&& (mask &&& r.qMask))) := by
   simp only [QReg.measureMask, h, ↓reduceIte]
 
 theorem measure_qNum (r : QReg ℝ) (mask d : Nat) : (r.measureMask mask d).1.qNum = r.qNum := by
   by_cases h : mask &&& r.qMask = 0
   · rw [measure_of_zero r mask d h]
-  · rw [measure_of_ne r mask d h]; exact normalize_qNum _
+  · rw [measure_of_ne r mask d h]; exact rescale_qNum _
 
 theorem measure_qMask (r : QReg ℝ) (mask d : Nat) : (r.measureMask mask d).1.qMask = r.qMask := by
   by_cases h : mask &&& r.qMask = 0
   · rw [measure_of_zero r mask d h]
-  · rw [measure_of_ne r mask d h]; exact normalize_qMask _
+  · rw [measure_of_ne r mask d h]; exact rescale_qMask _
 
 theorem measure_size (r : QReg ℝ) (mask d : Nat) :
     (r.measureMask mask d).1.psi.size = r.psi.size := by
   by_cases h : mask &&& r.qMask = 0
   · rw [measure_of_zero r mask d h]
   · rw [measure_of_ne r mask d h]
-    exact (normalize_size _).trans (collapse_size _ _ _)
+    exact (rescale_size _).trans (collapse_size _ _ _)
+
+theorem measure_wf (r : QReg ℝ) (mask d : Nat) (hwf : WF r) : WF (r.measureMask mask d).1 := by
+  by_cases hm : mask &&& r.qMask = 0
+  · rw [measure_of_zero r mask d hm]; exact hwf
+  · rw [measure_of_ne r mask d hm]; exact rescale_wf _ (collapse_wf r _ _ hwf)
 
 /-- the classical result of a measurement, whatever the register -/
 theorem measure_value (r : QReg ℝ) (mask d : Nat) (hq : r.qMask = 2 ^ r.qNum - 1)
@@ -275,23 +376,41 @@ theorem measure_value (r : QReg ℝ) (mask d : Nat) (hq : r.qMask = 2 ^ r.qNum -
     simp only [CReg.withState, CReg.maskOf_of_le _ hn]
     rw [Nat.and_assoc, Nat.and_assoc, ← hq, Nat.and_self]
 
-/-- the non-degenerate post-measurement state: the collapsed buffer times one positive number -/
-theorem measure_nondeg (r : QReg ℝ) (mask d : Nat)
-    (hbig : RegConsts.tiny < Real.sqrt (nrm (r.collapseMask d (mask &&& r.qMask)))) :
+/-- the post-measurement state, for EVERY mask and draw: the collapsed buffer times one positive
+number (no degenerate branch any more: `rescale` never resets) -/
+theorem measure_scaled (r : QReg ℝ) (mask d : Nat) :
     ∃ lam : ℝ, 0 < lam ∧ ∀ i, bufFn (r.measureMask mask d).1.psi i
       = (if (i ^^^ d) &&& (mask &&& r.qMask) ≠ 0 then 0 else bufFn r.psi i).scale lam := by
   by_cases h : mask &&& r.qMask = 0
   · refine ⟨1, one_pos, fun i => ?_⟩
     rw [measure_of_zero r mask d h, h, cx_scale_one]
     simp
-  · obtain ⟨lam, hlam, _, hl⟩ := normalize_nondeg _ hbig
+  · obtain ⟨lam, hlam, _, hl⟩ := rescale_scaled (r.collapseMask d (mask &&& r.qMask))
     refine ⟨lam, hlam, fun i => ?_⟩
     rw [measure_of_ne r mask d h]
     simp only
     rw [hl i, bufFn_collapse]
 
-/-- a draw of positive probability leaves a positive collapsed norm (but not necessarily one
-above `1e-15`) -/
+/-- a possible draw on a non-empty set of qubits: the factor is `1/norm` of the collapsed buffer -/
+theorem measure_exact (r : QReg ℝ) (mask d : Nat) (hne : mask &&& r.qMask ≠ 0)
+    (hpos : 0 < nrm (r.collapseMask d (mask &&& r.qMask))) (i : Nat) :
+    bufFn (r.measureMask mask d).1.psi i
+      = (if (i ^^^ d) &&& (mask &&& r.qMask) ≠ 0 then 0 else bufFn r.psi i).scale
+          (1 / Real.sqrt (nrm (r.collapseMask d (mask &&& r.qMask)))) := by
+  rw [measure_of_ne r mask d hne]
+  simp only
+  rw [rescale_of_pos _ hpos]
+  simp only
+  rw [bufFn_map_scale, bufFn_collapse]
+
+/-- … and the squared norm afterwards is exactly 1 -/
+theorem nrm_measure (r : QReg ℝ) (mask d : Nat) (hne : mask &&& r.qMask ≠ 0)
+    (hpos : 0 < nrm (r.collapseMask d (mask &&& r.qMask))) :
+    nrm (r.measureMask mask d).1 = 1 := by
+  rw [measure_of_ne r mask d hne]
+  exact nrm_rescale _ hpos
+
+/-- a draw of positive probability leaves a positive collapsed norm -/
 theorem nrm_collapse_pos (r : QReg ℝ) (d m : Nat) (hd : d < r.psi.size)
     (hp : 0 < (bufFn r.psi d).normSq) : 0 < nrm (r.collapseMask d m) := by
   rw [nrm_eq_sum, collapse_size]
@@ -303,15 +422,43 @@ theorem nrm_collapse_pos (r : QReg ℝ) (d m : Nat) (hd : d < r.psi.size)
   exact single_le_sum (f := fun i => (bufFn (r.collapseMask d m).psi i).normSq)
     (fun i _ => normSq_nonneg _) hmem
 
-/-- the degenerate branch: the collapsed norm is at most `1e-15`, the register is reset -/
-theorem measure_degenerate (r : QReg ℝ) (mask d : Nat) (hne : mask &&& r.qMask ≠ 0)
-    (hsmall : Real.sqrt (nrm (r.collapseMask d (mask &&& r.qMask))) ≤ RegConsts.tiny) :
-    (r.measureMask mask d).1 = (r.collapseMask d (mask &&& r.qMask)).reset 0 := by
-  rw [measure_of_ne r mask d hne]
-  rcases normalize_cases (r.collapseMask d (mask &&& r.qMask)) with ⟨_, h⟩ | ⟨h, _⟩ | ⟨h, _⟩
-  · exact h
-  · exact absurd hsmall (not_le.2 h)
-  · exact absurd hsmall (not_le.2 h)
+/-- the `WeightedIndex` contract in its primitive form: an index of non-zero amplitude is a
+possible draw, for every set of measured qubits -/
+theorem nrm_collapse_pos_of_ne (r : QReg ℝ) (d m : Nat) (hp : bufFn r.psi d ≠ 0) :
+    0 < nrm (r.collapseMask d m) := by
+  have hd : d < r.psi.size := by
+    apply Classical.not_not.1
+    intro h
+    exact hp (bufFn_of_size_le r.psi d (Nat.le_of_not_lt h))
+  exact nrm_collapse_pos r d m hd
+    (lt_of_le_of_ne (normSq_nonneg _) (fun h => hp ((normSq_eq_zero_iff _).1 h.symm)))
+
+/-- measuring no qubit of the register: nothing is zeroed -/
+theorem nrm_collapse_zero_mask (r : QReg ℝ) (d : Nat) : nrm (r.collapseMask d 0) = nrm r := by
+  apply nrm_congr _ _ (collapse_size r d 0)
+  intro i
+  rw [bufFn_collapse]
+  simp
+
+/-- the drawn index keeps a non-zero amplitude -/
+theorem measure_drawn_ne_zero (r : QReg ℝ) (mask d : Nat) (hp : bufFn r.psi d ≠ 0) :
+    bufFn (r.measureMask mask d).1.psi d ≠ 0 := by
+  obtain ⟨lam, hlam, h⟩ := measure_scaled r mask d
+  rw [h d, Nat.xor_self, Nat.zero_and, if_neg (fun hne => hne rfl)]
+  exact cx_scale_ne_zero _ lam hlam hp
+
+/-- an impossible draw (all amplitudes consistent with it are zero; `WeightedIndex` never
+produces one): the collapsed buffer is the zero vector and `rescale` leaves it alone -/
+theorem measure_impossible (r : QReg ℝ) (mask d : Nat) (hne : mask &&& r.qMask ≠ 0)
+    (hzero : nrm (r.collapseMask d (mask &&& r.qMask)) = 0) :
+    (r.measureMask mask d).1 = r.collapseMask d (mask &&& r.qMask) ∧
+      ∀ i, bufFn (r.measureMask mask d).1.psi i = 0 := by
+  have h : (r.measureMask mask d).1 = r.collapseMask d (mask &&& r.qMask) := by
+    rw [measure_of_ne r mask d hne]
+    exact rescale_of_zero _ hzero
+  refine ⟨h, fun i => ?_⟩
+  rw [h]
+  exact bufFn_of_nrm_zero _ hzero i
 
 theorem bufFn_reset_zero (r : QReg ℝ) (hs : 0 < r.psi.size) : bufFn (r.reset 0).psi 0 = 1 := by
   simp only [QReg.reset, QReg.bufFn_basisBuf, Nat.and_zero]
@@ -377,22 +524,23 @@ theorem demoReg_inv : Inv demoReg := by
   · rw [demoReg, qubitReg_nrm, close_real]; norm_num
   · rw [demoReg, qubitReg_nrm]; norm_num
 
-theorem demoReg_nondeg_one :
-    RegConsts.tiny < Real.sqrt (nrm (demoReg.collapseMask 1 (1 &&& demoReg.qMask))) := by
-  show RegConsts.tiny < Real.sqrt (nrm ((qubitReg (3 / 5) (4 / 5)).collapseMask 1 1))
-  rw [qubitReg_nrm_collapse_one, Real.sqrt_sq (by norm_num), tiny_real]
+/-- draw 1 on `(3/5, 4/5)` is possible: the collapsed squared norm is `16/25` -/
+theorem demoReg_pos_one : 0 < nrm (demoReg.collapseMask 1 (1 &&& demoReg.qMask)) := by
+  show 0 < nrm ((qubitReg (3 / 5) (4 / 5)).collapseMask 1 1)
+  rw [qubitReg_nrm_collapse_one]
   norm_num
 
-theorem demoReg_nondeg_zero :
-    RegConsts.tiny < Real.sqrt (nrm (demoReg.collapseMask 0 (1 &&& demoReg.qMask))) := by
-  show RegConsts.tiny < Real.sqrt (nrm ((qubitReg (3 / 5) (4 / 5)).collapseMask 0 1))
-  rw [qubitReg_nrm_collapse_zero, Real.sqrt_sq (by norm_num), tiny_real]
+/-- draw 0 on `(3/5, 4/5)` is possible: the collapsed squared norm is `9/25` -/
+theorem demoReg_pos_zero : 0 < nrm (demoReg.collapseMask 0 (1 &&& demoReg.qMask)) := by
+  show 0 < nrm ((qubitReg (3 / 5) (4 / 5)).collapseMask 0 1)
+  rw [qubitReg_nrm_collapse_zero]
   norm_num
 
 /-- `1e-16` -/
 noncomputable def tinyAmp : ℝ := (10 : ℝ)⁻¹ ^ 16
 
-/-- `(√(1 − 1e-32), 1e-16)`: a unit vector whose `|1>` amplitude is below the `1e-15` threshold -/
+/-- `(√(1 − 1e-32), 1e-16)`: a unit vector whose `|1>` amplitude is below the `1e-15` threshold
+of `normalize` (the counterexample to C06 before `measure_mask` switched to `rescale`) -/
 noncomputable def rareReg : QReg ℝ := qubitReg (Real.sqrt (1 - tinyAmp ^ 2)) tinyAmp
 
 theorem rareReg_nrm : nrm rareReg = 1 := by
@@ -404,18 +552,20 @@ theorem rareReg_inv : Inv rareReg := by
   · rw [rareReg_nrm, close_real]; norm_num
   · rw [rareReg_nrm]
 
+/-- the collapsed norm of the draw `1` is below the threshold at which `normalize` resets … -/
 theorem rareReg_degenerate :
     Real.sqrt (nrm (rareReg.collapseMask 1 (1 &&& rareReg.qMask))) ≤ RegConsts.tiny := by
   show Real.sqrt (nrm ((qubitReg _ tinyAmp).collapseMask 1 1)) ≤ RegConsts.tiny
   rw [qubitReg_nrm_collapse_one, Real.sqrt_sq (by unfold tinyAmp; positivity), tiny_real]
   unfold tinyAmp; norm_num
 
-/-! ## 7. the norm under the register operations (C05) -/
+/-- … but it is positive: the draw is possible -/
+theorem rareReg_pos_one : 0 < nrm (rareReg.collapseMask 1 (1 &&& rareReg.qMask)) := by
+  show 0 < nrm ((qubitReg _ tinyAmp).collapseMask 1 1)
+  rw [qubitReg_nrm_collapse_one]
+  unfold tinyAmp; positivity
 
-theorem nrm_scale (r : QReg ℝ) (t : ℝ) :
-    nrm ({ r with psi := r.psi.map (fun v => v.scale t) } : QReg ℝ) = t ^ 2 * nrm r := by
-  rw [nrm_eq_sum, nrm_eq_sum, mul_sum]
-  simp only [Array.size_map, bufFn_map_scale, normSq_scale]
+/-! ## 7. the norm under the register operations (C05) -/
 
 theorem normalize_wf (r : QReg ℝ) (hwf : WF r) : WF r.normalize := by
   rcases normalize_cases r with ⟨_, h⟩ | ⟨_, _, h⟩ | ⟨_, _, h⟩ <;> rw [h]
@@ -450,11 +600,15 @@ theorem nrm_normalize (r : QReg ℝ) (hwf : WF r) (h1 : nrm r ≤ 1) :
 theorem normalize_inv (r : QReg ℝ) (hwf : WF r) (h1 : nrm r ≤ 1) : Inv r.normalize :=
   ⟨normalize_wf r hwf, nrm_normalize r hwf h1⟩
 
-theorem measure_inv (r : QReg ℝ) (mask d : Nat) (h : Inv r) : Inv (r.measureMask mask d).1 := by
+/-- measurement keeps the register valid, provided the draw — if one takes place, i.e. if the
+effective mask is non-empty — is possible -/
+theorem measure_inv (r : QReg ℝ) (mask d : Nat) (h : Inv r)
+    (hposs : mask &&& r.qMask ≠ 0 → 0 < nrm (r.collapseMask d (mask &&& r.qMask))) :
+    Inv (r.measureMask mask d).1 := by
   by_cases hm : mask &&& r.qMask = 0
   · rw [measure_of_zero r mask d hm]; exact h
-  · rw [measure_of_ne r mask d hm]
-    exact normalize_inv _ (collapse_wf r _ _ h.1) (le_trans (nrm_collapse_le r _ _) h.2.2)
+  · refine ⟨measure_wf r mask d h.1, ?_, ?_⟩ <;> rw [nrm_measure r mask d hm (hposs hm)]
+    exact close_sq_le_one
 
 theorem reset_inv (r : QReg ℝ) (hwf : WF r) (i : Nat) : Inv (r.reset i) := by
   refine ⟨reset_wf r hwf i, ?_, ?_⟩ <;> rw [nrm_reset r hwf i]
@@ -697,8 +851,16 @@ theorem nrm_tensorProd (a b : QReg ℝ) (ha : WF a) (hb : WF b) :
 `GatesPreserve`) -/
 inductive Step : QReg ℝ → QReg ℝ → Prop
   | apply (r : QReg ℝ) (o : MultiOp ℝ) (hp : GatesPreserve r.qNum o) : Step r (r.apply o)
-  | measure (r : QReg ℝ) (mask d : Nat) : Step r (r.measureMask mask d).1
-  | resetByMask (r : QReg ℝ) (mask d : Nat) : Step r (r.resetByMask mask d)
+  /-- `hposs`, the `WeightedIndex` contract: if a draw takes place (the effective mask is not
+  empty) the drawn index is possible -/
+  | measure (r : QReg ℝ) (mask d : Nat)
+      (hposs : mask &&& r.qMask ≠ 0 → 0 < nrm (r.collapseMask d (mask &&& r.qMask))) :
+      Step r (r.measureMask mask d).1
+  /-- `hposs`: the same; `reset_by_mask` draws unless every qubit or no qubit is named -/
+  | resetByMask (r : QReg ℝ) (mask d : Nat)
+      (hposs : mask &&& r.qMask ≠ r.qMask → mask &&& r.qMask ≠ 0 →
+        0 < nrm (r.collapseMask d (mask &&& r.qMask))) :
+      Step r (r.resetByMask mask d)
   | setNum (r : QReg ℝ) (n : Nat) : Step r (r.setNum n)
   | reset (r : QReg ℝ) (i : Nat) : Step r (r.reset i)
 
@@ -713,30 +875,30 @@ inductive ReachableT : QReg ℝ → Prop
   | step {r r' : QReg ℝ} : ReachableT r → Step r r' → ReachableT r'
   | tensor {a b : QReg ℝ} : ReachableT a → ReachableT b → ReachableT (a.tensorProd b)
 
-/-- a step keeps the register well-formed and either keeps the squared norm or brings it into
-`[(1 − 1e-9)², 1]` -/
+/-- a step keeps the register well-formed and either keeps the squared norm or makes it
+exactly 1 -/
 def NormStep (r r' : QReg ℝ) : Prop :=
-  WF r' ∧ (nrm r' = nrm r ∨ ((1 - RegConsts.close) ^ 2 ≤ nrm r' ∧ nrm r' ≤ 1))
+  WF r' ∧ (nrm r' = nrm r ∨ nrm r' = 1)
 
-theorem measure_normStep (r : QReg ℝ) (mask d : Nat) (hwf : WF r) (h1 : nrm r ≤ 1) :
+theorem measure_normStep (r : QReg ℝ) (mask d : Nat) (hwf : WF r)
+    (hposs : mask &&& r.qMask ≠ 0 → 0 < nrm (r.collapseMask d (mask &&& r.qMask))) :
     NormStep r (r.measureMask mask d).1 := by
   by_cases hm : mask &&& r.qMask = 0
   · rw [measure_of_zero r mask d hm]; exact ⟨hwf, Or.inl rfl⟩
-  · rw [measure_of_ne r mask d hm]
-    have := normalize_inv _ (collapse_wf r d (mask &&& r.qMask) hwf)
-      (le_trans (nrm_collapse_le r _ _) h1)
-    exact ⟨this.1, Or.inr this.2⟩
+  · exact ⟨measure_wf r mask d hwf, Or.inr (nrm_measure r mask d hm (hposs hm))⟩
 
 theorem reset_normStep (r : QReg ℝ) (i : Nat) (hwf : WF r) : NormStep r (r.reset i) :=
-  ⟨reset_wf r hwf i, Or.inr (reset_inv r hwf i).2⟩
+  ⟨reset_wf r hwf i, Or.inr (nrm_reset r hwf i)⟩
 
-theorem resetByMask_normStep (r : QReg ℝ) (mask d : Nat) (hwf : WF r) (h1 : nrm r ≤ 1) :
+theorem resetByMask_normStep (r : QReg ℝ) (mask d : Nat) (hwf : WF r)
+    (hposs : mask &&& r.qMask ≠ r.qMask → mask &&& r.qMask ≠ 0 →
+      0 < nrm (r.collapseMask d (mask &&& r.qMask))) :
     NormStep r (r.resetByMask mask d) := by
   unfold QReg.resetByMask
   by_cases hall : mask &&& r.qMask = r.qMask
   · rw [if_pos hall]; exact reset_normStep r 0 hwf
   · rw [if_neg hall]
-    have hpost := measure_normStep r mask d hwf h1
+    have hpost := measure_normStep r mask d hwf (hposs hall)
     simp only
     by_cases hv : (r.measureMask mask d).2.value ≠ 0
     · rw [if_pos hv]
@@ -760,36 +922,44 @@ theorem resetByMask_normStep (r : QReg ℝ) (mask d : Nat) (hwf : WF r) (h1 : nr
       exact ⟨hwf', by rw [hn']; exact hpost.2⟩
     · rw [if_neg hv]; exact hpost
 
-theorem step_normStep {r r' : QReg ℝ} (hs : Step r r') (hwf : WF r) (h1 : nrm r ≤ 1) :
-    NormStep r r' := by
+theorem step_normStep {r r' : QReg ℝ} (hs : Step r r') (hwf : WF r) : NormStep r r' := by
   cases hs with
   | apply o hp =>
     obtain ⟨hwf', hn'⟩ := apply_wf_nrm r o hp hwf
     exact ⟨hwf', Or.inl hn'⟩
-  | measure mask d => exact measure_normStep r mask d hwf h1
-  | resetByMask mask d => exact resetByMask_normStep r mask d hwf h1
+  | measure mask d hposs => exact measure_normStep r mask d hwf hposs
+  | resetByMask mask d hposs => exact resetByMask_normStep r mask d hwf hposs
   | setNum n =>
     by_cases hn : n < r.qNum
     · rw [QReg.setNum_shrink r n hn, QReg.new_eq_withState]
-      exact ⟨withState_WF n 0, Or.inr (withState_inv n 0).2⟩
+      exact ⟨withState_WF n 0, Or.inr (nrm_withState n 0)⟩
     · obtain ⟨hwf', hn'⟩ := setNum_grow_inv r n (Nat.le_of_not_lt hn) hwf
       exact ⟨hwf', Or.inl hn'⟩
   | reset i => exact reset_normStep r i hwf
 
-/-- "squared norm in `[c, 1]`" for a tolerance `c ≤ (1 − 1e-9)²` survives every step -/
+/-- "squared norm in `[c, 1]`" for a tolerance `c ≤ 1` survives every step -/
 theorem normStep_bound {r r' : QReg ℝ} (h : NormStep r r') (c : ℝ)
-    (hc : c ≤ (1 - RegConsts.close) ^ 2) (hl : c ≤ nrm r) (hu : nrm r ≤ 1) :
+    (hc : c ≤ 1) (hl : c ≤ nrm r) (hu : nrm r ≤ 1) :
     c ≤ nrm r' ∧ nrm r' ≤ 1 := by
-  rcases h.2 with he | ⟨h1, h2⟩
+  rcases h.2 with he | he
   · rw [he]; exact ⟨hl, hu⟩
-  · exact ⟨le_trans hc h1, h2⟩
+  · rw [he]; exact ⟨hc, le_refl _⟩
 
 theorem step_inv {r r' : QReg ℝ} (hs : Step r r') (h : Inv r) : Inv r' := by
-  have hn := step_normStep hs h.1 h.2.2
-  exact ⟨hn.1, normStep_bound hn _ (le_refl _) h.2.1 h.2.2⟩
+  have hn := step_normStep hs h.1
+  exact ⟨hn.1, normStep_bound hn _ close_sq_le_one h.2.1 h.2.2⟩
 
-theorem resetByMask_inv (r : QReg ℝ) (mask d : Nat) (h : Inv r) : Inv (r.resetByMask mask d) :=
-  step_inv (Step.resetByMask r mask d) h
+/-- a step from a register of squared norm exactly 1 leads to one of squared norm exactly 1 -/
+theorem step_nrm_one {r r' : QReg ℝ} (hs : Step r r') (hwf : WF r) (h1 : nrm r = 1) :
+    nrm r' = 1 := by
+  rcases (step_normStep hs hwf).2 with he | he
+  · rw [he, h1]
+  · exact he
+
+theorem resetByMask_inv (r : QReg ℝ) (mask d : Nat) (h : Inv r)
+    (hposs : mask &&& r.qMask ≠ r.qMask → mask &&& r.qMask ≠ 0 →
+      0 < nrm (r.collapseMask d (mask &&& r.qMask))) : Inv (r.resetByMask mask d) :=
+  step_inv (Step.resetByMask r mask d hposs) h
 
 /-- `normalize` never rescales a vector whose norm is at least 1: the test is `1 − norm ≤ 1e-9`,
 not `|1 − norm| ≤ 1e-9` -/
@@ -808,6 +978,22 @@ theorem reachable_inv {r : QReg ℝ} (h : Reachable r) : Inv r := by
   | init n s => exact withState_inv n s
   | step _ hs ih => exact step_inv hs ih
 
+/-- since `measure_mask` divides by the norm whenever it draws, no slack accumulates: the squared
+norm of a reachable register is exactly 1 -/
+theorem reachable_nrm {r : QReg ℝ} (h : Reachable r) : nrm r = 1 := by
+  induction h with
+  | init n s => exact nrm_withState n s
+  | step hr hs ih => exact step_nrm_one hs (reachable_inv hr).1 ih
+
+/-- the same with tensor products -/
+theorem reachableT_nrm {r : QReg ℝ} (h : ReachableT r) : WF r ∧ nrm r = 1 := by
+  induction h with
+  | init n s => exact ⟨withState_WF n s, nrm_withState n s⟩
+  | step _ hs ih => exact ⟨(step_normStep hs ih.1).1, step_nrm_one hs ih.1 ih.2⟩
+  | tensor _ _ iha ihb =>
+    refine ⟨tensorProd_WF _ _ iha.1 ihb.1, ?_⟩
+    rw [nrm_tensorProd _ _ iha.1 ihb.1, iha.2, ihb.2, mul_one]
+
 /-- with tensor products the lower bound is `(1 − 1e-9)^(2k)`, `k` the number of factors -/
 theorem reachableT_bound {r : QReg ℝ} (h : ReachableT r) :
     ∃ k : Nat, 1 ≤ k ∧ WF r ∧ (1 - RegConsts.close) ^ (2 * k) ≤ nrm r ∧ nrm r ≤ 1 := by
@@ -819,9 +1005,9 @@ theorem reachableT_bound {r : QReg ℝ} (h : ReachableT r) :
     exact pow_le_one₀ h0 h1
   | step _ hs ih =>
     obtain ⟨k, hk, hwf, hl, hu⟩ := ih
-    have hn := step_normStep hs hwf hu
+    have hn := step_normStep hs hwf
     refine ⟨k, hk, hn.1, normStep_bound hn _ ?_ hl hu⟩
-    exact pow_le_pow_of_le_one h0 h1 (by omega)
+    exact pow_le_one₀ h0 h1
   | tensor _ _ iha ihb =>
     obtain ⟨ka, hka, hwa, hla, hua⟩ := iha
     obtain ⟨kb, hkb, hwb, hlb, hub⟩ := ihb
